@@ -25,7 +25,7 @@ from . import seqlib as S
 PROPERTY = "C19"
 DRIVERS = {"tlo:": "TraitsVerif/Driver/Seq.lean"}
 PROPS_MODULES = ["TraitsVerif.Props.C19"]
-TRANSLATORS = ["effects"]
+TRANSLATORS = ["effects", "pyl"]
 EXCS = ["TraitError", "ValueError", "AttributeError", "RuntimeError"]
 RULE = ("fault injection: (operation, k, exception) triples — the k-th user callback invocation inside the "
         "operation raises — sampled over histories of the container clusters (List traits through the Lean "
